@@ -678,6 +678,107 @@ class Interp:
         cache[key] = nd
         return nd
 
+    def _inplace_params(self, fi: FunctionInfo, depth=0) -> List[str]:
+        """parameters of a package function that are the target of an augmented assignment (`p += x`: for an ndarray the
+        caller's array changes) and are never re-bound by a plain assignment; directly, or by being handed on to such a
+        function under their own name"""
+        cache = self.__dict__.setdefault("_inplace_cache", {})
+        key = fi.qualname if fi.qualname in self.p.functions else id(fi.node)
+        if key in cache:
+            return cache[key]
+        cache[key] = []
+        nd = fi.node
+        out = []
+        if isinstance(nd, (ast.FunctionDef, ast.AsyncFunctionDef)) and depth <= 3:
+            a = nd.args
+            params = [x.arg for x in a.posonlyargs + a.args + a.kwonlyargs]
+            aug, plain = set(), set()
+            for x in _own_walk(nd):
+                if isinstance(x, ast.AugAssign) and isinstance(x.target, ast.Name):
+                    aug.add(x.target.id)
+                elif isinstance(x, ast.Name) and isinstance(x.ctx, ast.Store):
+                    plain.add(x.id)
+                elif isinstance(x, ast.Call):
+                    g = self._callee_info(fi, x)
+                    if g is not None and g is not fi:
+                        inner = self._inplace_params(g, depth + 1)
+                        if inner:
+                            gp = g.params[1:] if (g.cls is not None and g.kind != "staticmethod" and isinstance(x.func, ast.Attribute)) \
+                                else g.params
+                            for k, arg in enumerate(x.args):
+                                if isinstance(arg, ast.Name) and k < len(gp) and gp[k] in inner:
+                                    aug.add(arg.id)
+                            for kw in x.keywords:
+                                if kw.arg in inner and isinstance(kw.value, ast.Name):
+                                    aug.add(kw.value.id)
+            # the targets of augmented assignments are Store names as well: count plain stores separately
+            plain_only = set()
+            for x in _own_walk(nd):
+                if isinstance(x, (ast.Assign, ast.AnnAssign, ast.For, ast.With, ast.NamedExpr, ast.comprehension)):
+                    tg = x.targets if isinstance(x, ast.Assign) else [getattr(x, "target", None)] if not isinstance(x, ast.With) \
+                        else [i.optional_vars for i in x.items]
+                    for t in tg:
+                        if t is not None:
+                            plain_only |= {y.id for y in ast.walk(t) if isinstance(y, ast.Name) and isinstance(y.ctx, ast.Store)}
+            out = [p_ for p_ in params if p_ in aug and p_ not in plain_only]
+        cache[key] = out
+        return out
+
+    def _callee_info(self, fi: FunctionInfo, call: ast.Call) -> Optional[FunctionInfo]:
+        try:
+            locs = self.__dict__.setdefault("_locs_cache", {})
+            k = id(fi.node)
+            if k not in locs:
+                locs[k] = {x.id for x in ast.walk(fi.node) if isinstance(x, ast.Name) and isinstance(x.ctx, ast.Store)}
+            t = self.p.resolve(fi.module, call.func, locs[k])
+        except Exception:
+            t = None
+        if t is None and isinstance(call.func, ast.Attribute) and isinstance(call.func.value, ast.Name) \
+                and call.func.value.id in ("self", "cls") and getattr(fi, "cls", None) is not None:
+            m = fi.cls.lookup(call.func.attr, self.p)
+            return m
+        return self.p.functions.get(t) if t else None
+
+    def _copy_out(self, fi: FunctionInfo, out_values: Dict[str, Val], call: ast.Call, env: dict, bound: bool):
+        """`helper(img, ...)` where the helper does `img += ...` on an ndarray: the caller's `img` is that array"""
+        ps = fi.params[1:] if bound else fi.params
+        exprs = {}
+        if any(isinstance(x, ast.Starred) for x in call.args):
+            self.lose("an array is updated in place by a callee that receives it through *args", call)
+            return
+        for k, a_ in enumerate(call.args):
+            if k < len(ps):
+                exprs[ps[k]] = a_
+        for kw in call.keywords:
+            if kw.arg is not None:
+                exprs[kw.arg] = kw.value
+        for nm, v in out_values.items():
+            e = exprs.get(nm)
+            if isinstance(e, ast.Name):
+                if env is None:
+                    self.lose(f"`{e.id}` is updated in place by {fi.name}() in a context whose names are not followed", call)
+                    continue
+                self._rebind(e.id, env, call)[e.id] = v
+            elif isinstance(e, ast.Attribute) and isinstance(e.value, ast.Name) and env is not None \
+                    and isinstance(env.get(e.value.id), ObjV):
+                env[e.value.id].attrs[e.attr] = v
+            elif e is not None and isinstance(e, (ast.Subscript, ast.Call, ast.Attribute)):
+                self.lose(f"{fi.name}() updates in place the array it is given as `{ast.unparse(e)[:40]}` (a view or an element): "
+                          f"the owner of that memory is not followed", call)
+
+    def _oneshot(self, fi: FunctionInfo):
+        cache = self.__dict__.setdefault("_oneshot_cache", {})
+        if fi.qualname not in cache:
+            hits = []
+            if fi.qualname in self.p.functions and isinstance(fi.node, (ast.FunctionDef, ast.AsyncFunctionDef)):
+                try:
+                    from ..rules import oneshot
+                    hits = oneshot.analyse(self.p, fi)
+                except Exception:
+                    hits = []
+            cache[fi.qualname] = hits
+        return cache[fi.qualname]
+
     def _bind_defaults(self, a: ast.arguments, env: dict) -> Dict[str, Val]:
         """default values are evaluated when the function object is created (`lambda x=x: ...` keeps the x of that moment;
         a free variable of the body is looked up when the body runs)"""
@@ -694,6 +795,10 @@ class Interp:
         if depth >= self.cfg.max_depth:
             return self.unknown("inlining-depth", node)
         fnode = self._exec_node(fi)
+        # generators are read eagerly: where the code consumes a one-shot iterator twice that reading is not Python's
+        hits = self._oneshot(fi)
+        if hits:
+            self.lose(hits[0]["why"], hits[0]["second"])
         env: Dict[str, Val] = {}
         a = fnode.args
         params = [x.arg for x in a.posonlyargs + a.args]
@@ -728,6 +833,10 @@ class Interp:
             for nm in fr.nonlocals:
                 if nm not in env:
                     env[nm] = closure_env[nm]
+        # parameters updated in place (`p += x` on an ndarray): their final value goes back to the caller's name
+        fr.outparams = {nm for nm in self._inplace_params(fi) if isinstance(env.get(nm), Arr) and env[nm].kind == "nd"}
+        fr.out_values = {}
+        fr.nonlocals |= fr.outparams
         self.frames.append(fr)
         survive: List[Expr] = []
         try:
@@ -750,7 +859,7 @@ class Interp:
                     exits.append(list(self.path[fr.path_base:]))
                     if fr.nonlocals:
                         fr.nl_exits.append((list(self.path[fr.path_base:]), {nm: done[nm] for nm in fr.nonlocals if nm in done}))
-                if fr.nonlocals and closure_env is not None:
+                if fr.nonlocals and (closure_env is not None or fr.outparams):
                     for nm in fr.nonlocals:
                         snaps = [(c_, d_[nm]) for c_, d_ in fr.nl_exits if nm in d_]
                         if not snaps:
@@ -758,7 +867,10 @@ class Interp:
                         out_ = snaps[-1][1]
                         for c_, v_ in reversed(snaps[:-1]):
                             out_ = self.join_cond(sym.And(*c_) if c_ else sym.TRUE, v_, out_)
-                        closure_env[nm] = out_
+                        if nm in fr.outparams:
+                            fr.out_values[nm] = out_
+                        else:
+                            closure_env[nm] = out_
                 ret = self._join_returns(fr)
                 # facts that hold on every normal exit of the callee (typically: its guards did not raise) stay known
                 # to the caller
@@ -768,6 +880,7 @@ class Interp:
         finally:
             self.frames.pop()
             del self.path[fr.path_base:]
+        self._last_out = (fi, fr.out_values) if fr.out_values else None
         for c in survive:
             if not any(c == d for d in self.path):
                 self.path.append(c)
@@ -1148,6 +1261,19 @@ class Interp:
                     tgt = n.func.value.id
                 if tgt and tgt not in names:
                     names.append(tgt)
+                if isinstance(n, ast.Call) and self.frames and (n.args or n.keywords):
+                    # a helper that updates its parameter in place (`img += ...`): the caller's name changes with it
+                    g = self._callee_info(self.frames[-1].fi, n)
+                    inner = self._inplace_params(g) if g is not None else []
+                    if inner:
+                        gp = g.params[1:] if (g.cls is not None and g.kind != "staticmethod" and isinstance(n.func, ast.Attribute)) \
+                            else g.params
+                        for k, arg in enumerate(n.args):
+                            if isinstance(arg, ast.Name) and k < len(gp) and gp[k] in inner and arg.id not in names:
+                                names.append(arg.id)
+                        for kw in n.keywords:
+                            if kw.arg in inner and isinstance(kw.value, ast.Name) and kw.value.id not in names:
+                                names.append(kw.value.id)
         return names
 
     def iteration(self, it: Val, node) -> Tuple[Optional[Space], Optional[str], Any]:
@@ -2861,7 +2987,13 @@ class Interp:
                 if fv.target in stubs:
                     # a rule asked to observe this call instead of executing the callee
                     return stubs[fv.target](self, bound, n)
-                return self.call_function(fi, args, kwargs, n)
+                self._last_out = None
+                r_ = self.call_function(fi, args, kwargs, n)
+                lo_ = self._last_out
+                self._last_out = None
+                if lo_ and lo_[0] is fi and isinstance(n, ast.Call):
+                    self._copy_out(fi, lo_[1], n, env, fv.bound_self is not None)
+                return r_
             if fv.kind == "class":
                 return self.construct(fv.target, pos, kwargs, n)
             if fv.kind == "lambda":
